@@ -1,141 +1,479 @@
-"""C19 -- suite utilities preserve the test set: filter keeps chosen ids, sort permutes."""
+"""C19 -- suite utilities preserve the test set: filter keeps chosen ids, sort permutes.
+
+The recursive utilities (iterate_tests, filter_by_ids, _flatten_tests) are decided by an inductive step on one
+symbolic node: the function is interpreted abstractly for every kind of node (test case, plain TestSuite, custom
+suite with or without sort_tests / filter_by_ids, empty suite, foreign object) with its recursive calls replaced
+by symbolic results, so that "every child is handled exactly once, in order, and the result kept" is read off
+the run.  sorted_tests, the --list / --load-list plumbing of testtools.run and the listing helpers are interpreted
+against symbolic suites, runners and files.
+"""
 
 import ast
 
-from ..absint import NONE, NOTNONE, TOP, DefaultDomain, Interp, Result, State, exc, val
-from ..astutil import FUNC_TYPES, attr_chain, dotted, norm, walk_shallow
-from ..cfg import live_nodes, node_calls
+from .. import effects
+from ..absint import FALSE, NONE, TOP, TRUE, State, exc, val
+from ..astutil import FUNC_TYPES, dotted, norm
 from ..loader import AnalysisError
-from .common import TESTSUITE, cfg_of, kw_value, module_function, nodes_calling, own_method, str_const
+from .common import TESTSUITE, module_function, own_method
 
 EXPLANATION = (
-    "R-DUP-CHECK-FIRST: in sorted_tests the duplicate-id ValueError dominates flattening and sorting and "
-    "counts ids over iterate_tests of the whole argument. R-SORTKEY-NONNULL: nullness abstract interpretation "
-    "of _flatten_tests -- every value that becomes the sort key (first component) of an element of the list "
-    "that sorted_tests sorts is non-None on all paths. R-RESULT-USED: the value returned by filter_by_ids and "
-    "sorted_tests is used at every call site (the contract allows returning a new object). "
-    "R-FILTER-OBLIGATIONS: filter_by_ids dispatches custom filter_by_ids, then objects with id(), then "
-    "TestSuite, else unchanged; in the TestSuite arm every child is passed to exactly one recursive call whose "
-    "result is appended in iteration order to the list that replaces _tests. R-ITERATE: iterate_tests yields "
-    "non-iterables and recurses into every element in order. R-LIST-LOAD: --load-list ids are stripped and "
-    "decoded per line and reach filter_by_ids before runTests; --list prints the ids of iterate_tests / "
-    "list_test of the (filtered) suite. Tree-shape semantics of flattening and sorting are value properties "
-    "and are not decided."
+    "Inductive steps on a symbolic node (abstract runs with recursive calls replaced by symbolic results) for "
+    "every kind of node -- test case, plain TestSuite, custom suite with / without sort_tests or filter_by_ids, "
+    "empty suites, a foreign object. R-ITERATE: iterate_tests yields a non-iterable itself and, for a suite, the "
+    "leaves of every child once, in order. R-FILTER-OBLIGATIONS: filter_by_ids delegates to an object's own "
+    "filter_by_ids, keeps a case iff its id is listed (else an empty TestSuite), filters every child of a suite "
+    "exactly once and replaces the suite's tests by the results in order, returns anything else unchanged. "
+    "R-SORTKEY-NONNULL / R-DUP-CHECK-FIRST: _flatten_tests gives a case (id, case), concatenates the flattened "
+    "children of a plain suite in order, keeps a custom suite whole under the id of its first test and calls its "
+    "sort_tests once; sorted_tests rejects duplicate ids with ValueError before anything is flattened (sort_tests "
+    "has side effects) and otherwise returns a TestSuite of the flattened tests ordered by key. R-RESULT-USED: the "
+    "value returned by filter_by_ids / sorted_tests is used at every call site (the contract allows a new object). "
+    "R-LIST-LOAD: TestProgram.__init__ for --load-list / --list on and off, runners with and without list(): the ids "
+    "of the list file (every line, stripped, decoded) reach filter_by_ids whose result replaces self.test before "
+    "anything runs or is listed; --list uses runner.list(self.test[, loader]) or prints the id of every test of "
+    "iterate_tests(self.test), and does not run; list_test / TestToolsTestRunner.list print every id. Whole-tree "
+    "permutation properties follow from these steps by induction and are not re-derived on concrete trees."
 )
 
 RUN = "testtools.run"
+IDS_HIT, IDS_MISS = ("tuple", ("const", "the.case.id"), ("const", "x")), ("tuple", ("const", "x"))
+X, Y = ("sym", "child-1"), ("sym", "child-2")
+NODE = ("wobj", "node")
+SUITE_CLASS = ("class", "unittest.TestSuite")
+KINDS = {
+    # kind: (is a TestSuite, exactly unittest.TestSuite, has id(), has filter_by_ids, has sort_tests)
+    "a test case": (False, False, True, False, False),
+    "a test case with its own filter_by_ids": (False, False, True, True, False),
+    "a plain TestSuite": (True, True, False, False, False),
+    "a custom suite": (True, False, False, False, False),
+    "a custom suite with sort_tests": (True, False, False, False, True),
+    "a custom suite with filter_by_ids": (True, False, False, True, False),
+    "a foreign object": (False, False, False, False, False),
+}
 
 
-class KeyDomain(DefaultDomain):
-    def __init__(self):
-        self.returns = []
+class NodeDomain(effects.EffectDomain):
+    """One symbolic node of a suite tree; recursive calls of the utilities are answered symbolically."""
 
-    def is_none(self, v):
-        if v == ("id",):
-            return "F"
-        return super().is_none(v)
+    def __init__(self, classes, kind, children=(X, Y), stubs=None, **kw):
+        suite, plain, has_id, has_filter, has_sort = KINDS[kind]
+        lacks = set(kw.pop("lacks", ()))
+        if not has_id:
+            lacks.add(("node", "id"))
+        if not has_filter:
+            lacks.add(("node", "filter_by_ids"))
+        if not has_sort:
+            lacks.add(("node", "sort_tests"))
+        attrs = {"unittest.TestSuite": SUITE_CLASS}
+        attrs.update(kw.pop("attrs", {}))
+        super().__init__(classes, attrs=attrs, lacks=lacks, oracle=kw.pop("oracle", None) or self._oracle, ctors={"unittest.TestSuite", "TestSuite"}, log_cap=24, **kw)
+        self.kind, self.suite, self.plain, self.children = kind, suite, plain, tuple(children)
+        self.stubs = dict(stubs or {})
+
+    def _oracle(self, n, pos, kw):
+        if n == "node.id":
+            return [("val", ("const", "the.case.id"))]
+        if n == "node.filter_by_ids":
+            return [("val", ("sym", "what-its-own-filter-returns"))]
+        if n == "node.sort_tests":
+            return [("val", NONE)]
+        if n.endswith(".id") and n.startswith("leaf"):
+            return [("val", ("const", n.split(".")[0] + ".id"))]
+        return None
+
+    def compare(self, op, left, right):
+        if isinstance(op, (ast.Eq, ast.NotEq, ast.Is, ast.IsNot)) and all(isinstance(v, tuple) and v[:1] == ("class",) for v in (left, right)):
+            return "T" if (left == right) == isinstance(op, (ast.Eq, ast.Is)) else "F"
+        if isinstance(op, (ast.In, ast.NotIn)) and isinstance(left, tuple) and left[:1] == ("class",) and isinstance(right, tuple) and right[:1] == ("tuple",) \
+                and all(isinstance(v, tuple) and v[:1] == ("class",) for v in right[1:]):
+            return "T" if (left in right[1:]) == isinstance(op, ast.In) else "F"
+        return super().compare(op, left, right)
+
+    def iter_exact(self, value):
+        if value == NODE and self.suite:
+            return list(self.children)
+        return super().iter_exact(value)
 
     def call(self, interp, call, st, fr):
-        d = dotted(call.func)
-        out = []
-        for r in interp.eval_list([a.value if isinstance(a, ast.Starred) else a for a in call.args] + [k.value for k in call.keywords], st, fr):
-            if r.kind == "exc":
-                out.append(r)
-                continue
-            if d and d.endswith(".id") and not call.args:
-                out.append(val(("id",), r.state))
-            elif d == "getattr" and len(call.args) == 3 and isinstance(call.args[2], ast.Constant) and call.args[2].value is None:
-                out.append(val(TOP, r.state))
-                out.append(val(NONE, r.state))
-            elif d == "iter":
-                out.append(val(TOP, r.state))
-                out.append(exc(("raised", "TypeError"), r.state))
-            else:
-                out.append(val(TOP, r.state))
-        return out
-
-    def match(self, handler_type, excvalue, st):
-        if handler_type is not None and isinstance(excvalue, tuple) and len(excvalue) == 2 and excvalue[1] in norm(handler_type):
-            return "yes"
-        return "maybe"
-
-    _busy = False
-
-    def exec_hook(self, interp, s, st, fr):
-        if isinstance(s, ast.Assign) and len(s.targets) == 1 and isinstance(s.targets[0], ast.Name) and not self._busy:
-            # remember which assignment defined each local (part of a finding's identity)
-            self._busy = True
-            try:
-                outs = interp.exec(s, st, fr)
-            finally:
-                self._busy = False
-            return [(k, p_, (s2.set("def:" + s.targets[0].id, norm(s)) if k == "next" else s2)) for k, p_, s2 in outs]
-        if isinstance(s, ast.Return) and isinstance(s.value, ast.List) and fr.depth == 0:
+        d = dotted(call.func) or ""
+        if d in self.stubs:
             out = []
-            for e in s.value.elts:
-                if isinstance(e, ast.Tuple) and e.elts:
-                    for r in interp.eval(e.elts[0], st, fr):
-                        if r.kind == "val":
-                            self.returns.append((s, e.elts[0], r.value, r.state))
-            return None
+            exprs = [a.value if isinstance(a, ast.Starred) else a for a in call.args] + [k.value for k in call.keywords]
+            for r in interp.eval_list(exprs, st, fr):
+                if r.kind == "exc":
+                    out.append(r)
+                    continue
+                pos = tuple(r.value[: len(call.args)])
+                kw = tuple((k.arg, v) for k, v in zip(call.keywords, r.value[len(call.args):]))
+                log = r.state.get("ev.calls", ())
+                out.append(val(self.stubs[d](pos, kw), r.state.set("ev.calls", log + ((d, pos, kw, "ok"),))))
+            return out
+        if d in ("iter", "type", "isinstance") and call.args:
+            out = []
+            for r in interp.eval_list(list(call.args), st, fr):
+                if r.kind == "exc":
+                    out.append(r)
+                elif r.value[0] != NODE:
+                    return super().call(interp, call, st, fr)
+                elif d == "iter":
+                    out.append(val(("iter", ("tuple",) + self.children), r.state) if self.suite else exc(("exc", "TypeError"), r.state))
+                elif d == "type":
+                    out.append(val(SUITE_CLASS if self.plain else ("class", "a subclass or something else"), r.state))
+                else:
+                    types = r.value[1][1:] if isinstance(r.value[1], tuple) and r.value[1][:1] == ("tuple",) else (r.value[1],)
+                    out.append(val(TRUE if (self.suite and SUITE_CLASS in types) else FALSE, r.state))
+            return out
+        return super().call(interp, call, st, fr)
+
+    def store_subscript(self, target, value, st, fr, interp):
+        # node._tests[:] = <list>: the suite's tests are replaced in place
+        if isinstance(target.value, ast.Attribute) and target.value.attr == "_tests" and isinstance(target.value.value, ast.Name) \
+                and st.get(fr.local(target.value.value.id), None) == NODE and isinstance(target.slice, ast.Slice) and target.slice.lower is None and target.slice.upper is None:
+            return st.set("ev.tests_replaced", value)
+        return super().store_subscript(target, value, st, fr, interp)
+
+    def store_attr_on(self, base, attr, value, st, fr):
+        if base == NODE and attr == "_tests":
+            return st.set("ev.tests_replaced", value)
         return None
+
+
+def _run(ctx, dom, f, argv):
+    return effects.run(ctx, dom, f, None, argv, state=State(), depth=4)
+
+
+def check_iterate(ctx):
+    f = module_function(ctx, TESTSUITE, "iterate_tests")
+    p = f.args.args[0].arg
+    stub = {"iterate_tests": lambda pos, kw: ("tuple", ("leaf-of", pos[0], 1), ("leaf-of", pos[0], 2))}
+    for kind, children in (("a test case", ()), ("a foreign object", ()), ("a plain TestSuite", (X, Y)), ("a custom suite", (X, Y)), ("a plain TestSuite", ())):
+        dom = NodeDomain(ctx.classes, kind, children, stubs=stub)
+        res = _run(ctx, dom, f, {p: NODE})
+        suite = KINDS[kind][0]
+        want = [x for c in children for x in (("leaf-of", c, 1), ("leaf-of", c, 2))] if suite else [NODE]
+        problems = set()
+        for r in res:
+            got = list(r.state.get("gen.0", ()))
+            if r.kind != "val" or got != want:
+                problems.add(f"for {kind} with children {list(children)} iterate_tests yields {got} ({r.kind}); expected {'the leaves of each child once, in order' if suite else 'the object itself'}")
+            rec = [e[1] for e in r.state.get("ev.calls", ()) if e[0] == "iterate_tests"]
+            if suite and rec != [(c,) for c in children]:
+                problems.add(f"the children recursed into are {rec}; expected each child once, in order")
+        ctx.check("R-ITERATE", f"iterate_tests on {kind}" + (" without children" if suite and not children else ""), f, bool(res) and not problems, "; ".join(sorted(problems)) or "no path", examined=len(res),
+                  construct=f"{TESTSUITE}:iterate_tests::{kind}{'' if children or not suite else ' (empty)'}")
+
+
+def check_filter(ctx):
+    f = module_function(ctx, TESTSUITE, "filter_by_ids")
+    p = [a.arg for a in f.args.args]
+    stub = {"filter_by_ids": lambda pos, kw: ("filtered", pos[0])}
+    for kind in KINDS:
+        for ids, listed in ((IDS_HIT, True), (IDS_MISS, False)):
+            suite, plain, has_id, has_filter, has_sort = KINDS[kind]
+            dom = NodeDomain(ctx.classes, kind, (X, Y), stubs=stub)
+            res = _run(ctx, dom, f, {p[0]: NODE, p[1]: ids})
+            problems = set()
+            for r in res:
+                log = r.state.get("ev.calls", ())
+                own = [e for e in log if e[0] == "node.filter_by_ids"]
+                rec = [e[1] for e in log if e[0] == "filter_by_ids"]
+                replaced = r.state.get("ev.tests_replaced", None)
+                if r.kind != "val":
+                    problems.add(f"filter_by_ids raises {r.value!r}")
+                    continue
+                if has_filter:
+                    if len(own) != 1 or own[0][1] != (ids,) or r.value != ("sym", "what-its-own-filter-returns") or rec or replaced is not None:
+                        problems.add("an object with its own filter_by_ids is not simply asked (once, with the ids) and its answer returned")
+                elif has_id:
+                    want = NODE if listed else None
+                    if listed and r.value != NODE:
+                        problems.add(f"a case whose id is listed is not returned itself ({r.value!r})")
+                    if not listed and not (isinstance(r.value, tuple) and r.value[:2] == ("new", "TestSuite") and r.value[2] in ((), (("tuple",),))):
+                        problems.add(f"a case whose id is not listed is replaced by {r.value!r} instead of an empty TestSuite")
+                    if rec or replaced is not None:
+                        problems.add("a test case is treated like a suite")
+                elif suite:
+                    if rec != [(X, ids), (Y, ids)]:
+                        problems.add(f"the children filtered are {rec}; expected each child once, in order, with the same ids")
+                    if replaced != ("tuple", ("filtered", X), ("filtered", Y)):
+                        problems.add(f"the suite's tests become {replaced!r}; expected the filtered children, in order (filter_by_ids may return new objects: the results must be kept)")
+                    if r.value != NODE:
+                        problems.add("the suite itself is not returned")
+                else:
+                    if r.value != NODE or rec or replaced is not None or own:
+                        problems.add(f"an object that is neither case nor suite is not returned unchanged ({r.value!r})")
+            ctx.check("R-FILTER-OBLIGATIONS", f"filter_by_ids on {kind}, id {'listed' if listed else 'not listed'}", f, bool(res) and not problems, "; ".join(sorted(problems)) or "no path", examined=len(res),
+                      construct=f"{TESTSUITE}:filter_by_ids::{kind} {'listed' if listed else 'not listed'}")
+
+
+def check_flatten(ctx):
+    f = module_function(ctx, TESTSUITE, "_flatten_tests")
+    p = [a.arg for a in f.args.args]
+    L1, L2 = ("wobj", "leaf1"), ("wobj", "leaf2")
+    all_nullkeys = set()
+    for kind in ("a test case", "a plain TestSuite", "a custom suite", "a custom suite with sort_tests"):
+        for unpack in (FALSE, TRUE):
+            for leaves in ((L1, L2), ()):
+                suite = KINDS[kind][0]
+                if not suite and (unpack == TRUE or not leaves):
+                    continue
+                stubs = {"_flatten_tests": lambda pos, kw: ("tuple", ("tuple", ("key-of", pos[0]), pos[0])), "iterate_tests": lambda pos, kw, leaves=leaves: ("iter", ("tuple",) + leaves)}
+                dom = NodeDomain(ctx.classes, kind, (X, Y) if leaves else (), stubs=stubs)
+                res = _run(ctx, dom, f, {p[0]: NODE, p[1]: unpack})
+                problems, nullkey = set(), set()
+                flat = (suite and KINDS[kind][1]) or (suite and unpack == TRUE)
+                for r in res:
+                    log = r.state.get("ev.calls", ())
+                    sorts = [e for e in log if e[0] == "node.sort_tests"]
+                    if r.kind != "val":
+                        problems.add(f"_flatten_tests raises {r.value!r}")
+                        continue
+                    if not suite:
+                        if r.value != ("tuple", ("tuple", ("const", "the.case.id"), NODE)):
+                            problems.add(f"a test case is flattened to {r.value!r} instead of [(its id, the case)]")
+                    elif flat:
+                        kids = (X, Y) if leaves else ()
+                        if r.value != ("tuple",) + tuple(("tuple", ("key-of", c), c) for c in kids):
+                            problems.add(f"the suite is flattened to {r.value!r}; expected the flattened children, in order")
+                        if sorts:
+                            problems.add("sort_tests is called on a suite that is being unpacked")
+                    else:
+                        want_key = ("const", "leaf1.id") if leaves else NONE
+                        ok_shape = isinstance(r.value, tuple) and r.value[:1] == ("tuple",) and len(r.value) == 2 and isinstance(r.value[1], tuple) and r.value[1][:1] == ("tuple",) and len(r.value[1]) == 3 and r.value[1][2] == NODE
+                        if not ok_shape:
+                            problems.add(f"a custom suite is flattened to {r.value!r} instead of being kept whole as [(key, suite)]")
+                        elif r.value[1][1] == NONE:
+                            nullkey.add("an empty custom suite gets the sort key None: sorting it among tests raises TypeError ('<' not supported between str and NoneType) instead of keeping the suite")
+                        elif r.value[1][1] != want_key:
+                            problems.add(f"the custom suite's key is {r.value[1][1]!r}; expected the id of its first test")
+                        if len(sorts) != (1 if KINDS[kind][4] else 0):
+                            problems.add(f"sort_tests is called {len(sorts)} times on {kind}")
+                label = f"{kind}{', unpack_outer' if unpack == TRUE else ''}{'' if leaves or not suite else ', empty'}"
+                ctx.check("R-SORTKEY-NONNULL", f"_flatten_tests on {label}", f, bool(res) and not problems, "; ".join(sorted(problems)) or "no path", examined=len(res),
+                          construct=f"{TESTSUITE}:_flatten_tests::{label}")
+                if suite and not flat and not leaves:
+                    all_nullkeys.update(nullkey)
+    ctx.check("R-SORTKEY-NONNULL", "_flatten_tests on an empty custom suite: the sort key is a test id, never None", f, not all_nullkeys, "; ".join(sorted(all_nullkeys)),
+              construct=f"{TESTSUITE}:_flatten_tests::empty custom suite gets sort key None")
+
+
+def check_sorted(ctx):
+    f = module_function(ctx, TESTSUITE, "sorted_tests")
+    p = [a.arg for a in f.args.args]
+    O1, O2, O3 = ("sym", "obj-b"), ("sym", "obj-a"), ("sym", "obj-c")
+    pairs = ("tuple", ("tuple", ("const", "b"), O1), ("tuple", ("const", "a"), O2), ("tuple", ("const", "c"), O3))
+    for label, leaf_ids, dup in (("unique ids", ("b", "a", "c"), False), ("a duplicated id", ("b", "a", "b"), True), ("no tests", (), False)):
+        leaves = tuple(("wobj", f"leaf{i}") for i in range(len(leaf_ids)))
+
+        def oracle(n, pos, kw, leaf_ids=leaf_ids):
+            if n.startswith("leaf") and n.endswith(".id"):
+                return [("val", ("const", leaf_ids[int(n[4:].split(".")[0])]))]
+            return None
+
+        stubs = {"iterate_tests": lambda pos, kw, leaves=leaves: ("iter", ("tuple",) + leaves), "_flatten_tests": lambda pos, kw, leaf_ids=leaf_ids: pairs if leaf_ids else ("tuple",)}
+        for unpack in (FALSE, TRUE):
+            dom = NodeDomain(ctx.classes, "a plain TestSuite", (X, Y), stubs=stubs, oracle=oracle, results={"pformat": [("const", "<the duplicates>")]})
+            res = _run(ctx, dom, f, {p[0]: NODE, p[1]: unpack})
+            problems = set()
+            for r in res:
+                log = r.state.get("ev.calls", ())
+                flat = [e for e in log if e[0] == "_flatten_tests"]
+                walked = [e for e in log if e[0] == "iterate_tests"]
+                if not walked or any(e[1] != (NODE,) for e in walked):
+                    problems.add("the ids are not collected over iterate_tests of the whole argument")
+                if dup:
+                    if not (r.kind == "exc" and r.value == ("exc", "ValueError")):
+                        problems.add(f"with a duplicated id sorted_tests gives {r.kind} {r.value!r} instead of raising ValueError")
+                    if flat:
+                        problems.add("the suite is flattened (custom suites' sort_tests already ran) before the duplicate ids are rejected")
+                    continue
+                if r.kind != "val":
+                    problems.add(f"with {label} sorted_tests raises {r.value!r}")
+                    continue
+                if len(flat) != 1 or flat[0][1][:1] != (NODE,) or unpack not in list(flat[0][1][1:]) + [v for _, v in flat[0][2]]:
+                    problems.add("_flatten_tests is not called once with the argument and the given unpack_outer")
+                want = ("tuple", O2, O1, O3) if leaf_ids else ("tuple",)
+                if not (isinstance(r.value, tuple) and r.value[:2] == ("new", "TestSuite") and r.value[2] == (want,)):
+                    problems.add(f"sorted_tests returns {r.value!r}; expected TestSuite of every flattened test ordered by its key")
+            ctx.check("R-DUP-CHECK-FIRST", f"sorted_tests with {label}{', unpack_outer' if unpack == TRUE else ''}", f, bool(res) and not problems, "; ".join(sorted(problems)) or "no path", examined=len(res),
+                      construct=f"{TESTSUITE}:sorted_tests::{label}{' unpack' if unpack == TRUE else ''}")
+
+
+class ProgramDomain(effects.EffectDomain):
+    """TestProgram.__init__: argument parsing is replaced by its effect on the three attributes it decides."""
+
+    enter_returns_self = True
+
+    def __init__(self, classes, listtests, load_list, **kw):
+        super().__init__(classes, **kw)
+        self.parsed = (("self.listtests", TRUE if listtests else FALSE), ("self.load_list", ("const", "ids.txt") if load_list else NONE), ("self.test", ("sym", "loaded-tests")))
+
+    def call(self, interp, call, st, fr):
+        if (dotted(call.func) or "") == "self.parseArgs":
+            out = []
+            for r in interp.eval_list(list(call.args), st, fr):
+                if r.kind == "exc":
+                    out.append(r)
+                    continue
+                s = r.state
+                for k, v in self.parsed:
+                    s = s.set(k, v)
+                log = s.get("ev.calls", ())
+                out.append(val(NONE, s.set("ev.calls", log + (("self.parseArgs", tuple(r.value), (), "ok"),))))
+            return out
+        return super().call(interp, call, st, fr)
+
+
+def check_program(ctx):
+    cls = ctx.classes.get(RUN, "TestProgram")
+    init = own_method(ctx, RUN, "TestProgram", "__init__")
+    FILTERED = ("sym", "filtered-tests")
+    LEAVES = (("wobj", "leaf0"), ("wobj", "leaf1"))
+    for listtests in (False, True):
+        for load_list in (False, True):
+            for runner in (("has list(test, loader)",) if listtests else ("-",)) if False else (("list(test, loader)", "list(test)", "no list") if listtests else ("-",)):
+                def oracle(n, pos, kw, runner=runner):
+                    if n == "file.readlines":
+                        return [("val", ("tuple", ("const", b"pkg.mod.Test.test_a\n"), ("const", b"  pkg.mod.Test.test_b \r\n")))]
+                    if n == "runner.list":
+                        if runner == "list(test)" and (len(pos) > 1 or kw):
+                            return [("exc", ("exc", "TypeError"))]
+                        return [("val", NONE)]
+                    if n.startswith("leaf") and n.endswith(".id"):
+                        return [("val", ("const", n.split(".")[0] + ".id"))]
+                    if n.startswith(("file.", "runner.", "out.")):
+                        return [("val", NONE)]
+                    return None
+                lacks = {("runner", "list")} if runner == "no list" else set()
+                dom = ProgramDomain(ctx.classes, listtests, load_list, attrs={"self": ("self",), "self.stdout": ("wobj", "out")}, oracle=oracle, lacks=lacks,
+                                    results={"open": [("wobj", "file")], "filter_by_ids": [FILTERED], "self.runTests": [NONE], "self._get_runner": [("wobj", "runner")],
+                                             "iterate_tests": [("tuple",) + LEAVES]},
+                                    track=lambda d: d in ("open", "filter_by_ids", "self.runTests", "iterate_tests"), log_cap=30)
+                argv = {"stdout": ("wobj", "out"), "argv": ("tuple", ("const", "prog")), "module": ("const", "some.module"), "testLoader": ("wobj", "loader")}
+                res = effects.run(ctx, dom, init, cls, argv, state=State(), depth=4)
+                problems = set()
+                label = f"--list {'on' if listtests else 'off'}, --load-list {'given' if load_list else 'absent'}" + (f", runner with {runner}" if listtests else "")
+                normal = [r for r in res if r.kind == "val"]
+                if not normal:
+                    problems.add("no path of TestProgram.__init__ returns normally")
+                for r in normal:
+                    log = r.state.get("ev.calls", ())
+                    names = [e[0] for e in log]
+                    filt = [e for e in log if e[0] == "filter_by_ids"]
+                    acted = [i for i, e in enumerate(log) if e[0] in ("self.runTests", "runner.list", "iterate_tests", "out.write")]
+                    final_test = FILTERED if load_list else ("sym", "loaded-tests")
+                    if load_list:
+                        want_ids = {"pkg.mod.Test.test_a", "pkg.mod.Test.test_b"}
+                        ok_ids = len(filt) == 1 and filt[0][1][:1] == (("sym", "loaded-tests"),) and len(filt[0][1]) == 2 and isinstance(filt[0][1][1], tuple) and \
+                            {x[1] for x in filt[0][1][1][1:] if isinstance(x, tuple) and x[:1] == ("const",)} == want_ids and len(filt[0][1][1]) - 1 == len(want_ids)
+                        if not ok_ids:
+                            problems.add(f"filter_by_ids receives {[e[1] for e in filt]!r}; expected once (the loaded tests, the ids of every line of the list file, stripped and decoded)")
+                        if r.state.get("self.test") != FILTERED:
+                            problems.add("the filtered suite does not replace self.test (filter_by_ids may return a new object)")
+                        if filt and acted and names.index("filter_by_ids") > acted[0]:
+                            problems.add("the tests are run or listed before the --load-list filter is applied")
+                        opens = [e for e in log if e[0] == "open"]
+                        if len(opens) != 1 or opens[0][1][:1] != (("const", "ids.txt"),):
+                            problems.add("the list file given with --load-list is not the one opened")
+                        if "file.close" not in names and "file.__exit__" not in names:
+                            problems.add("the list file is not closed")
+                    elif filt:
+                        problems.add("the tests are filtered although no --load-list was given")
+                    runs = [e for e in log if e[0] == "self.runTests"]
+                    if not listtests:
+                        if len(runs) != 1 or "runner.list" in names or "out.write" in names:
+                            problems.add(f"without --list the tests are run {len(runs)} time(s)" + (" and listed" if "runner.list" in names or "out.write" in names else ""))
+                    else:
+                        if runs:
+                            problems.add("with --list the tests are run as well")
+                        lists = [e for e in log if e[0] == "runner.list" and e[3] == "ok"]
+                        writes = [e[1] for e in log if e[0] == "out.write"]
+                        if runner == "no list":
+                            walked = [e for e in log if e[0] == "iterate_tests"]
+                            if len(walked) != 1 or walked[0][1] != (final_test,) or writes != [(("const", "leaf0.id\n"),), (("const", "leaf1.id\n"),)]:
+                                problems.add(f"the fallback listing writes {writes!r} for iterate_tests{[e[1] for e in walked]!r}; expected one line per test id of the (filtered) suite")
+                        else:
+                            if len(lists) != 1 or lists[0][1][:1] != (final_test,):
+                                problems.add(f"runner.list is called successfully {len(lists)} time(s) with {[e[1] for e in lists]!r}; expected once with the (filtered) suite")
+                            elif runner == "list(test, loader)" and ("wobj", "loader") not in list(lists[0][1][1:]) + [v for _, v in lists[0][2]]:
+                                problems.add("a runner whose list() takes the loader is not given it")
+                            if writes:
+                                problems.add("ids are printed by the fallback although the runner lists them")
+                ctx.check("R-LIST-LOAD", f"TestProgram.__init__: {label}", init, not problems, "; ".join(sorted(problems)), examined=len(res), construct=f"{RUN}:TestProgram.__init__::{label}")
+    # the listing helpers
+    lt = module_function(ctx, RUN, "list_test")
+    leaf_ids = {"leaf0": "pkg.a", "leaf1": "unittest.loader.ModuleImportFailure.broken_mod", "leaf2": "pkg.b"}
+
+    def oracle(n, pos, kw):
+        if n.endswith(".id") and n.split(".")[0] in leaf_ids:
+            return [("val", ("const", leaf_ids[n.split(".")[0]]))]
+        return None
+
+    dom = effects.EffectDomain(ctx.classes, oracle=oracle, results={"iterate_tests": [("tuple",) + tuple(("wobj", k) for k in leaf_ids)]}, track=lambda d: d == "iterate_tests", log_cap=30)
+    T = ("sym", "the-suite")
+    res = effects.run(ctx, dom, lt, None, {lt.args.args[0].arg: T}, state=State(), depth=2)
+    want = ("tuple", ("tuple", ("const", "pkg.a"), ("const", "pkg.b")), ("tuple", ("const", "broken_mod")))
+    problems = set()
+    for r in res:
+        walked = [e[1] for e in r.state.get("ev.calls", ()) if e[0] == "iterate_tests"]
+        if r.kind != "val" or r.value != want or walked != [(T,)]:
+            problems.add(f"list_test gives {r.value!r} for iterate_tests{walked!r}; expected every id in order, import failures separated")
+    ctx.check("R-LIST-LOAD", "list_test collects the id of every test of iterate_tests, import failures apart", lt, bool(res) and not problems, "; ".join(sorted(problems)) or "no path", examined=len(res),
+              construct=f"{RUN}:list_test::collect")
+    rcls = ctx.classes.get(RUN, "TestToolsTestRunner")
+    rl = own_method(ctx, RUN, "TestToolsTestRunner", "list")
+    problems = set()
+    n = 0
+    for errors in (("tuple",), ("tuple", ("const", "broken_mod"))):
+        dom = effects.EffectDomain(ctx.classes, attrs={"self": ("self",), "self.stdout": ("wobj", "out"), "loader.errors": errors}, oracle=lambda n_, pos, kw: [("val", NONE)] if n_.startswith("out.") else None,
+                                   results={"list_test": [("tuple", ("tuple", ("const", "pkg.a"), ("const", "pkg.b")), ("tuple",))], "sys.exit": []}, raises={"sys.exit": [("exc", "SystemExit")]}, track=lambda d: d in ("list_test", "sys.exit"))
+        params = [a.arg for a in rl.args.args[1:]]
+        res = effects.run(ctx, dom, rl, rcls, {params[0]: T, params[1]: ("wobj", "loader")} if len(params) > 1 else {params[0]: T}, state=State(), depth=2)
+        n += len(res)
+        for r in res:
+            writes = [e[1] for e in r.state.get("ev.calls", ()) if e[0] == "out.write"]
+            want_w = [(("const", "pkg.a\n"),), (("const", "pkg.b\n"),)] + ([(("const", "broken_mod\n"),)] if len(errors) > 1 else [])
+            if writes != want_w:
+                problems.add(f"the runner's list() writes {writes!r}; expected one line per id" + (" and per import error" if len(errors) > 1 else ""))
+            if (len(errors) > 1) != (r.kind == "exc" and r.value == ("exc", "SystemExit")):
+                problems.add("list() exits iff the loader recorded import errors -- not so here")
+    ctx.check("R-LIST-LOAD", "TestToolsTestRunner.list prints every id list_test returns", rl, n > 0 and not problems, "; ".join(sorted(problems)) or "no path", examined=n, construct=f"{RUN}:TestToolsTestRunner.list::all")
+
+
+def check_callers(ctx):
+    ds = own_method(ctx, RUN, "TestProgram", "_do_discovery")
+    cls = ctx.classes.get(RUN, "TestProgram")
+    SORTED = ("sym", "sorted-suite")
+    dom = effects.EffectDomain(ctx.classes, attrs={"self": ("self",)}, results={"sorted_tests": [SORTED]}, track=lambda d: d == "sorted_tests")
+    res = effects.run(ctx, dom, ds, cls, {}, state=State([("self.test", ("sym", "discovered"))]), depth=2)
+    ok = bool(res) and all(r.kind == "val" and r.state.get("self.test") == SORTED and [e[1][:1] for e in r.state.get("ev.calls", ()) if e[0] == "sorted_tests"] == [(("sym", "discovered"),)] for r in res)
+    ctx.check("R-RESULT-USED", "discovered tests are replaced by the sorted suite", ds, ok, "self.test is not replaced by sorted_tests(self.test) after discovery", examined=len(res), construct=f"{RUN}:TestProgram._do_discovery::assign")
+    fcls = ctx.classes.get(TESTSUITE, "FixtureSuite")
+    fs = own_method(ctx, TESTSUITE, "FixtureSuite", "sort_tests")
+    dom = effects.EffectDomain(ctx.classes, attrs={"self": ("self",)}, results={"sorted_tests": [SORTED]}, track=lambda d: d == "sorted_tests")
+    res = effects.run(ctx, dom, fs, fcls, {}, state=State(), depth=2)
+    problems = set()
+    for r in res:
+        calls_ = [e for e in r.state.get("ev.calls", ()) if e[0] == "sorted_tests"]
+        if r.kind != "val" or r.state.get("self._tests") != SORTED:
+            problems.add("the sorted tests do not replace the suite's own tests")
+        if len(calls_) != 1 or calls_[0][1][:1] != (("self",),) or TRUE not in list(calls_[0][1][1:]) + [v for _, v in calls_[0][2]]:
+            problems.add("sorted_tests is not called as sorted_tests(self, True): without unpack_outer the suite would be kept whole and sort_tests would recurse for ever")
+    ctx.check("R-RESULT-USED", "FixtureSuite.sort_tests keeps the sorted tests of its own children", fs, bool(res) and not problems, "; ".join(sorted(problems)) or "no path", examined=len(res),
+              construct=f"{TESTSUITE}:FixtureSuite.sort_tests::assign")
 
 
 def run(ctx):
     ctx.rule("R-DUP-CHECK-FIRST", "duplicate ids are rejected before anything is flattened or sorted")
     ctx.rule("R-SORTKEY-NONNULL", "every sort key produced by _flatten_tests is a test id, never None")
     ctx.rule("R-RESULT-USED", "results of filter_by_ids / sorted_tests are used by their callers")
-    ctx.rule("R-FILTER-OBLIGATIONS", "filter_by_ids: documented dispatch order; every child filtered once, in order, result kept")
+    ctx.rule("R-FILTER-OBLIGATIONS", "filter_by_ids: documented dispatch; every child filtered once, in order, result kept")
     ctx.rule("R-ITERATE", "iterate_tests yields every leaf once, in suite order")
     ctx.rule("R-LIST-LOAD", "--load-list ids reach filter_by_ids before the run; --list prints the ids of the filtered suite")
-    classes = ctx.classes
-    mod = ctx.repo.module(TESTSUITE)
-
-    # ------------------------------------------------------------------ duplicate check first
-    st_f = module_function(ctx, TESTSUITE, "sorted_tests")
-    g = cfg_of(ctx, st_f)
-    lv = live_nodes(g)
-    raises = [n.id for n in g.nodes if n.id in lv and n.kind == "raise" and isinstance(n.ast, ast.Raise) and n.ast.exc is not None and "ValueError" in norm(n.ast.exc)]
-    flat = nodes_calling(g, lambda c: dotted(c.func) == "_flatten_tests", lv)
-    sorts = nodes_calling(g, lambda c: isinstance(c.func, ast.Attribute) and c.func.attr == "sort" or dotted(c.func) == "sorted", lv)
-    ok = len(raises) == 1 and bool(flat) and bool(sorts)
-    if ok:
-        rn = g.nodes[raises[0]].ast
-        guard = getattr(rn, "_parent", None)
-        gt = [n.id for n in g.nodes if n.id in lv and n.kind == "test" and n.ast is guard]
-        ok = isinstance(guard, ast.If) and bool(gt) and all(g.dominated_by(x, set(gt)) for x in flat + sorts)
-    ctx.check("R-DUP-CHECK-FIRST", "the duplicate-id check dominates flattening and sorting", st_f, ok,
-              "tests can be flattened / sorted before duplicate ids are rejected (TypeError from comparing tests instead of ValueError)", construct=f"{TESTSUITE}:sorted_tests::check-first")
-    counted = [c for c in walk_shallow(st_f, include_self=False) if isinstance(c, ast.Call) and dotted(c.func) == "Counter"]
-    ok = len(counted) == 1 and "iterate_tests(%s)" % st_f.args.args[0].arg in norm(counted[0]) and ".id()" in norm(counted[0])
-    ctx.check("R-DUP-CHECK-FIRST", "ids are counted over iterate_tests of the whole argument", st_f, ok, "duplicate detection does not look at every leaf test's id", construct=f"{TESTSUITE}:sorted_tests::count-all")
-    dup = [n for n in walk_shallow(st_f, include_self=False) if isinstance(n, ast.Assign) and isinstance(n.value, ast.DictComp)]
-    ok = len(dup) == 1 and any(isinstance(i, ast.Compare) and isinstance(i.ops[0], ast.Gt) and isinstance(i.comparators[0], ast.Constant) and i.comparators[0].value == 1 for i in dup[0].value.generators[0].ifs)
-    ctx.check("R-DUP-CHECK-FIRST", "an id is a duplicate precisely when it occurs more than once", st_f, ok, "the duplicate predicate is not `count > 1`", construct=f"{TESTSUITE}:sorted_tests::predicate")
-    rets = [r for r in walk_shallow(st_f, include_self=False) if isinstance(r, ast.Return)]
-    ok = len(rets) == 1 and "unittest.TestSuite(" in norm(rets[0].value) and "for (sort_key, test) in tests" in norm(rets[0].value).replace("for sort_key, test in", "for (sort_key, test) in") and not any(
-        isinstance(x, ast.comprehension) and x.ifs for x in ast.walk(rets[0].value))
-    ctx.check("R-DUP-CHECK-FIRST", "sorted_tests returns a suite of every flattened test", st_f, ok, "sorted_tests drops or filters tests when rebuilding the suite", construct=f"{TESTSUITE}:sorted_tests::returns-all")
-
-    # ------------------------------------------------------------------ sort key non-null
-    ft = module_function(ctx, TESTSUITE, "_flatten_tests")
-    dom = KeyDomain()
-    it = Interp(dom, max_depth=2)
-    it.analyze(ft, {}, State(), receiver=None, name="_flatten_tests")
-    ctx.stats["states"] += it.steps
-    ctx.analysed(ft)
-    seen = {}
-    for stmt, expr, value, state in dom.returns:
-        key = (stmt.lineno, norm(expr), value == NONE or value == TOP and False)
-        null = dom.is_none(value) != "F"
-        origin = state.get("def:" + norm(expr), "") if isinstance(expr, ast.Name) else ""
-        seen.setdefault((stmt.lineno, norm(expr) + (f" (from `{origin}`)" if origin and null else ""), null), (stmt, expr, value))
-    for (line, etxt, null), (stmt, expr, value) in sorted(seen.items()):
-        ctx.check("R-SORTKEY-NONNULL", f"_flatten_tests: `{norm(stmt)[:50]}` key {etxt} is {'possibly None' if null else 'a test id'}", stmt, not null,
-                  f"the sort key `{etxt}` can be None here (value {value}): an empty custom suite yields (None, suite) and sorted_tests' sort() raises TypeError "
-                  "comparing None with str instead of keeping the suite", construct=f"{TESTSUITE}:_flatten_tests::key {etxt} null={null}")
-    ctx.floor("R-SORTKEY-NONNULL", 2, "returned sort keys")
-
+    check_iterate(ctx)
+    check_filter(ctx)
+    check_flatten(ctx)
+    check_sorted(ctx)
     # ------------------------------------------------------------------ results used
     n_sites = 0
     for modname, m in ctx.repo.modules.items():
@@ -152,116 +490,11 @@ def run(ctx):
                           f"the result of `{norm(c)[:60]}` is discarded: the contract allows filter_by_ids/sorted_tests to return a NEW object, so the caller would keep the unfiltered/unsorted suite",
                           construct=f"{modname}:{getattr(getattr(c, '_func', None), 'name', '<module>')}::{dotted(c.func)}")
     ctx.floor("R-RESULT-USED", 4, "call sites")
-    ds = own_method(ctx, RUN, "TestProgram", "_do_discovery")
-    ok = any(isinstance(n, ast.Assign) and dotted(n.targets[0]) == "self.test" and norm(n.value) == "sorted_tests(self.test)" for n in ast.walk(ds))
-    ctx.check("R-RESULT-USED", "discovered tests are replaced by the sorted suite", ds, ok, "self.test is not reassigned from sorted_tests(self.test)", construct=f"{RUN}:TestProgram._do_discovery::assign")
-    fs = own_method(ctx, TESTSUITE, "FixtureSuite", "sort_tests")
-    ok = any(isinstance(n, ast.Assign) and dotted(n.targets[0]) == "self._tests" and isinstance(n.value, ast.Call) and dotted(n.value.func) == "sorted_tests" for n in ast.walk(fs))
-    ctx.check("R-RESULT-USED", "FixtureSuite.sort_tests keeps the sorted tests", fs, ok, "FixtureSuite.sort_tests discards the sorted result", construct=f"{TESTSUITE}:FixtureSuite.sort_tests::assign")
-
-    # ------------------------------------------------------------------ filter obligations
-    fb = module_function(ctx, TESTSUITE, "filter_by_ids")
-    ctx.analysed(fb)
-    tops = [s for s in fb.body if isinstance(s, ast.If)]
-    p0, p1 = (a.arg for a in fb.args.args[:2])
-    order = []
-    for s in tops:
-        t = norm(s.test).replace('"', "'")
-        if t == f"hasattr({p0}, 'filter_by_ids')":
-            order.append("custom")
-        elif t == f"hasattr({p0}, 'id')":
-            order.append("id")
-        elif t.startswith(f"isinstance({p0}, ") and "TestSuite" in t:
-            order.append("suite")
-        else:
-            order.append("?" + t)
-    ctx.check("R-FILTER-OBLIGATIONS", "dispatch order: custom filter_by_ids, object with id(), TestSuite, else unchanged", fb, order == ["custom", "id", "suite"],
-              f"dispatch order is {order}", construct=f"{TESTSUITE}:filter_by_ids::dispatch-order")
-    if order == ["custom", "id", "suite"]:
-        cu, idn, su = tops
-        ok = len(cu.body) == 1 and isinstance(cu.body[0], ast.Return) and norm(cu.body[0].value) == f"{p0}.filter_by_ids({p1})"
-        ctx.check("R-FILTER-OBLIGATIONS", "custom arm returns what the object's own filter_by_ids returns", cu, ok, "the custom arm does not return suite.filter_by_ids(test_ids)", construct=f"{TESTSUITE}:filter_by_ids::custom")
-        inner = [s for s in idn.body if isinstance(s, ast.If)]
-        ok = (len(inner) == 1 and norm(inner[0].test) == f"{p0}.id() in {p1}" and isinstance(inner[0].body[0], ast.Return) and dotted(inner[0].body[0].value) == p0
-              and isinstance(inner[0].orelse[0], ast.Return) and norm(inner[0].orelse[0].value) == "unittest.TestSuite()")
-        ctx.check("R-FILTER-OBLIGATIONS", "a test is kept iff its id is in test_ids, else replaced by an empty suite", idn, ok, "the id arm does not keep exactly the tests whose id is listed", construct=f"{TESTSUITE}:filter_by_ids::id-arm")
-        loops = [l for l in su.body if isinstance(l, ast.For)]
-        ok = False
-        if len(loops) == 1 and dotted(loops[0].iter) == p0 and isinstance(loops[0].target, ast.Name):
-            v = loops[0].target.id
-            calls = [c for c in walk_shallow(loops[0]) if isinstance(c, ast.Call) and dotted(c.func) == "filter_by_ids"]
-            ok = (len(calls) == 1 and [dotted(a) for a in calls[0].args] == [v, p1] and isinstance(calls[0]._parent, ast.Call) and isinstance(calls[0]._parent.func, ast.Attribute)
-                  and calls[0]._parent.func.attr == "append" and not any(isinstance(x, (ast.If, ast.Break, ast.Continue, ast.Return, ast.Try)) for x in walk_shallow(loops[0])))
-            if ok:
-                lst = dotted(calls[0]._parent.func.value)
-                repl = [n for n in su.body if isinstance(n, ast.Assign) and norm(n.targets[0]) in (f"{p0}._tests[:]", f"{p0}._tests") and dotted(n.value) == lst]
-                init = [n for n in su.body if isinstance(n, ast.Assign) and dotted(n.targets[0]) == lst and isinstance(n.value, ast.List) and not n.value.elts]
-                ok = len(repl) == 1 and len(init) == 1 and su.body.index(init[0]) < su.body.index(loops[0]) < su.body.index(repl[0])
-        ctx.check("R-FILTER-OBLIGATIONS", "TestSuite arm: each child filtered once, results appended in order, list replaces _tests", su, ok,
-                  "a child can be skipped / filtered twice / the filtered children do not replace suite._tests in iteration order", construct=f"{TESTSUITE}:filter_by_ids::suite-arm")
-        tail = [s for s in fb.body if isinstance(s, ast.Return)]
-        ok = len(tail) == 1 and dotted(tail[0].value) == p0 and fb.body[-1] is tail[0]
-        ctx.check("R-FILTER-OBLIGATIONS", "anything else (and a filtered suite) is returned itself", fb, ok, "filter_by_ids does not end with `return suite_or_case`", construct=f"{TESTSUITE}:filter_by_ids::tail")
-
-    # ------------------------------------------------------------------ iterate_tests
-    itf = module_function(ctx, TESTSUITE, "iterate_tests")
-    p = itf.args.args[0].arg
-    tries = [t for t in itf.body if isinstance(t, ast.Try)]
-    ok = False
-    if len(tries) == 1:
-        t = tries[0]
-        ok = (any("TypeError" in norm(h.type) and any(isinstance(y, ast.Yield) and dotted(y.value) == p for s in h.body for y in walk_shallow(s)) for h in t.handlers if h.type is not None)
-              and any(isinstance(l, ast.For) and isinstance(l.body[0], ast.Expr) and isinstance(l.body[0].value, ast.YieldFrom) and norm(l.body[0].value.value) == f"iterate_tests({dotted(l.target)})"
-                      and not any(isinstance(x, (ast.If, ast.Break, ast.Continue)) for x in walk_shallow(l)) for l in t.orelse))
-    ctx.check("R-ITERATE", "iterate_tests: non-iterable -> yield it; else recurse into every element in order", itf, ok,
-              "iterate_tests no longer yields each leaf exactly once in suite order", construct=f"{TESTSUITE}:iterate_tests::shape")
-
-    # ------------------------------------------------------------------ list / load-list
-    init = own_method(ctx, RUN, "TestProgram", "__init__")
-    g = cfg_of(ctx, init)
-    lv = live_nodes(g)
-    filt = nodes_calling(g, lambda c: dotted(c.func) == "filter_by_ids", lv)
-    runs = nodes_calling(g, lambda c: dotted(c.func) == "self.runTests", lv)
-    lists = nodes_calling(g, lambda c: dotted(c.func) in ("runner.list", "iterate_tests"), lv)
-    parse = nodes_calling(g, lambda c: dotted(c.func) == "self.parseArgs", lv)
-    ok = len(filt) == 1 and bool(runs) and bool(parse) and g.dominated_by(filt[0], set(parse)) and not (set(g.reach(g.after(runs[0]))) & set(filt)) and all(
-        f not in g.reach(g.after(x)) for x in runs + lists for f in filt)
-    ctx.check("R-LIST-LOAD", "--load-list filtering happens after argument parsing and before running / listing", init, ok,
-              "the suite can be run or listed before the --load-list filter is applied", construct=f"{RUN}:TestProgram.__init__::filter-before-run")
-    guard_ok = False
-    for nid in filt:
-        c = [c for c in node_calls(g.nodes[nid]) if dotted(c.func) == "filter_by_ids"][0]
-        stmt = g.nodes[nid].ast
-        guard_ok = isinstance(stmt, ast.Assign) and dotted(stmt.targets[0]) == "self.test" and [norm(a) for a in c.args] == ["self.test", "test_ids"] and any(
-            isinstance(p_, ast.If) and norm(p_.test) == "self.load_list" for p_ in _ancestors(stmt, init))
-    ctx.check("R-LIST-LOAD", "self.test is replaced by filter_by_ids(self.test, test_ids) iff --load-list was given", init, guard_ok,
-              "the filtered suite does not replace self.test under `if self.load_list`", construct=f"{RUN}:TestProgram.__init__::assign")
-    ids = [n for n in walk_shallow(init, include_self=False) if isinstance(n, ast.Assign) and dotted(n.targets[0]) == "test_ids"]
-    ok = len(ids) == 1 and isinstance(ids[0].value, (ast.SetComp, ast.ListComp)) and "strip()" in norm(ids[0].value.elt) and "decode(" in norm(ids[0].value.elt) and not ids[0].value.generators[0].ifs and norm(
-        ids[0].value.generators[0].iter) == "lines"
-    ctx.check("R-LIST-LOAD", "every line of the list file becomes one stripped, decoded id", init, ok, "list-file lines are not each stripped and decoded into test_ids", construct=f"{RUN}:TestProgram.__init__::ids")
-    ok = any(isinstance(n, ast.Assign) and dotted(n.targets[0]) == "lines" and norm(n.value) == "source.readlines()" for n in walk_shallow(init, include_self=False))
-    ctx.check("R-LIST-LOAD", "the whole list file is read", init, ok, "not all lines of the list file are read", construct=f"{RUN}:TestProgram.__init__::readlines")
-    fallback = [l for l in walk_shallow(init, include_self=False) if isinstance(l, ast.For) and norm(l.iter) == "iterate_tests(self.test)"]
-    ok = len(fallback) == 1 and any(isinstance(c, ast.Call) and dotted(c.func) == "self.stdout.write" and "test.id()" in norm(c) for c in walk_shallow(fallback[0]))
-    ctx.check("R-LIST-LOAD", "--list fallback prints the id of every test of iterate_tests(self.test)", init, ok, "the listing fallback does not print every id", construct=f"{RUN}:TestProgram.__init__::list-fallback")
-    rl = own_method(ctx, RUN, "TestToolsTestRunner", "list")
-    ok = any(isinstance(n, ast.Assign) and norm(n.value) == "list_test(test)" for n in walk_shallow(rl, include_self=False)) and any(
-        isinstance(l, ast.For) and dotted(l.iter) == "test_ids" and any(isinstance(c, ast.Call) and dotted(c.func) == "self.stdout.write" for c in walk_shallow(l)) and not any(
-            isinstance(x, (ast.If, ast.Break, ast.Continue)) for x in walk_shallow(l)) for l in walk_shallow(rl, include_self=False))
-    ctx.check("R-LIST-LOAD", "TestToolsTestRunner.list prints every id list_test returns", rl, ok, "the runner's list() skips ids", construct=f"{RUN}:TestToolsTestRunner.list::all")
-    lt = module_function(ctx, RUN, "list_test")
-    loops = [l for l in lt.body if isinstance(l, ast.For)]
-    ok = len(loops) == 1 and norm(loops[0].iter) == f"iterate_tests({lt.args.args[0].arg})" and any(
-        isinstance(c, ast.Call) and dotted(c.func) == "test_ids.append" and norm(c.args[0]) == "test.id()" for c in ast.walk(loops[0]))
-    ctx.check("R-LIST-LOAD", "list_test collects test.id() for every test of iterate_tests", lt, ok, "list_test does not walk iterate_tests(test) collecting ids", construct=f"{RUN}:list_test::collect")
-    ctx.assume("test ids are strings (never None)")
-
-
-def _ancestors(node, stop):
-    out = []
-    n = getattr(node, "_parent", None)
-    while n is not None and n is not stop:
-        out.append(n)
-        n = getattr(n, "_parent", None)
-    return out
+    check_callers(ctx)
+    check_program(ctx)
+    ctx.floor("R-ITERATE", 5)
+    ctx.floor("R-FILTER-OBLIGATIONS", 14)
+    ctx.floor("R-SORTKEY-NONNULL", 8)
+    ctx.floor("R-DUP-CHECK-FIRST", 6)
+    ctx.floor("R-LIST-LOAD", 8)
+    ctx.assume("test ids are strings (never None); a suite's iteration order is its order")
